@@ -367,7 +367,7 @@ pub fn emit_rust(built: &[Built], seed: u64, tier: &str, want: &dyn Fn(&str) -> 
                                  unwind, hname, pdecl, body);
                 harness_entry(index, "C02", &hname, name, unwind,
                               &format!("{} API on the current builder's bytes for {} ({} keys, {} bytes): every probe of length {}", api, name, b.art.kvs.len(), b.bytes.len(), l),
-                              "[]", if b.bytes.len() > 400 { "heavy" } else { "light" });
+                              "[]", if b.bytes.len() > 200 || b.art.group == "fan" || b.art.group == "wide" { "heavy" } else { "light" });
             }
         }
     }
@@ -541,7 +541,7 @@ fn {h}() {{
    pdecl = if l == 0 { format!("let backing = [0u8; 1];\n    let p: &[u8] = &backing[..0];\n    let want = model_{}_l0(&[]);", name) } else { format!("let p: [u8; {}] = kani::any();\n    let want = model_{}_l{}(&p);", l, name, l) });
                     harness_entry(index, "C10", &hname, name, unwind,
                                   &format!("version-{} file ({} bytes, reference-encoded) of {} in a {}: opens, every probe of length {}, verify()=ChecksumMissing", ver, bytes.len(), name, container, l),
-                                  "[]", if bytes.len() > 400 { "heavy" } else { "light" });
+                                  "[]", if bytes.len() > 200 || b.art.group == "fan" || b.art.group == "wide" { "heavy" } else { "light" });
                 }
             }
         }
